@@ -180,6 +180,7 @@ func (k Keeper) DeleteMeta(ctx sdk.Context, dataId string) error {
 	}
 
 	key := fmt.Sprintf("%s-%s-%s", metadata.Owner, metadata.Alias, metadata.GroupId)
+	k.removeDataExpireBlock(ctx, dataId, metadata.CreatedAt+metadata.Duration)
 	k.RemoveMetadata(ctx, dataId)
 	k.RemoveModel(ctx, key)
 
